@@ -163,7 +163,7 @@ def run_shard(ctx):
         check_cell(ctx, P.ECell(rng), rng)
 
 
-REQUIRE = [("produced", 500, "tokens produced"), ("decrypted", 500, "tokens decrypted"), ("forbidden_offered", 50, "forbidden combinations offered")]
+REQUIRE = [("produced", 200, "tokens produced"), ("decrypted", 200, "tokens decrypted"), ("forbidden_offered", 50, "forbidden combinations offered")]
 
 
 def replay(ctx, case):
